@@ -67,7 +67,24 @@ impl CKBProtocolHandler for SyncProtocol {
         );
         match message {
             packed::SyncMessageUnionReader::SendBlock(reader) => {
-                let new_block = reader.to_entity().block();
+                // A matched block is identified by its header hash only, so the body has to be
+                // checked against the commitments in that header before it is accepted.
+                let new_block = match check_block_body(reader.block()) {
+                    Some(block) => block,
+                    None => {
+                        warn!(
+                            "SyncProtocol.received a block whose body doesn't match its header \
+                            from Peer({})",
+                            peer
+                        );
+                        nc.ban_peer(
+                            peer,
+                            BAD_MESSAGE_BAN_TIME,
+                            String::from("send us a block whose body doesn't match its header"),
+                        );
+                        return;
+                    }
+                };
                 let mut matched_blocks = self.peers.matched_blocks().write().expect("poisoned");
                 self.peers.add_block(&mut matched_blocks, new_block);
 
@@ -128,4 +145,28 @@ impl CKBProtocolHandler for SyncProtocol {
             }
         }
     }
+}
+
+/// Returns the block if its body is well-formed and is committed by its own header, i.e. the
+/// transactions root and the extra hash (uncles and extension) in the header are the ones
+/// calculated from the body.
+fn check_block_body(reader: packed::BlockReader<'_>) -> Option<packed::Block> {
+    // Extra fields are not checked when the message is verified in compatible mode.
+    if reader.count_extra_fields() > 1 {
+        return None;
+    }
+    if let Some(extension) = reader.extra_field(0) {
+        if packed::BytesReader::verify(extension, false).is_err() {
+            return None;
+        }
+    }
+    let block = reader.to_entity();
+    let block_view = block.clone().into_view_without_reset_header();
+    if block_view.transactions_root() != block_view.calc_transactions_root() {
+        return None;
+    }
+    if block_view.extra_hash() != block_view.calc_extra_hash().extra_hash() {
+        return None;
+    }
+    Some(block)
 }
